@@ -218,6 +218,12 @@ impl MmapStorage {
             self.page_count
         );
 
+        #[cfg(kahflane_turdb_verif)]
+        crate::verif_hooks::crash_point(
+            crate::verif_hooks::KIND_PAGE_MUT,
+            self.mmap.as_ptr() as usize,
+            page_no,
+        );
         let offset = page_no as usize * PAGE_SIZE;
         Ok(&mut self.mmap[offset..offset + PAGE_SIZE])
     }
